@@ -33,11 +33,12 @@ const (
 	EvLoopCut
 	EvLookup
 	EvRunDefers
+	EvAssert // single-value type assertion (panics when the dynamic type differs)
 )
 
 var evNames = map[EvKind]string{EvCall: "call", EvGo: "go", EvDefer: "defer", EvStore: "store", EvLoad: "load", EvSend: "send",
 	EvRecv: "recv", EvClose: "close", EvSelect: "select", EvMapUpdate: "mapupdate", EvReturn: "return", EvPanic: "panic",
-	EvBranch: "branch", EvRecover: "recover", EvLoopCut: "loopcut", EvLookup: "lookup", EvRunDefers: "rundefers"}
+	EvBranch: "branch", EvRecover: "recover", EvLoopCut: "loopcut", EvLookup: "lookup", EvRunDefers: "rundefers", EvAssert: "assert"}
 
 func (k EvKind) String() string { return evNames[k] }
 
@@ -634,7 +635,11 @@ func (in *Interp) exec(st *State, fi int, b *ssa.BasicBlock, idx int, pred *ssa.
 			fr.env[ins] = s
 		case *ssa.TypeAssert:
 			x := in.val(st, fi, ins.X)
-			fr.env[ins] = in.newSym(&Sym{Kind: KTypeAssert, V: ins, X: x, Typ: ins.Type(), CommaOk: ins.CommaOk})
+			ta := in.newSym(&Sym{Kind: KTypeAssert, V: ins, X: x, Typ: ins.Type(), CommaOk: ins.CommaOk})
+			fr.env[ins] = ta
+			if !ins.CommaOk {
+				in.emit(st, fi, Event{Kind: EvAssert, Instr: ins, Val: x, Res: ta})
+			}
 		case *ssa.Slice:
 			x := in.val(st, fi, ins.X)
 			fr.env[ins] = in.newSym(&Sym{Kind: KSlice, V: ins, X: x, Typ: ins.Type()})
